@@ -176,13 +176,23 @@ Proof.
     destruct (fi_kind i); reflexivity.
 Qed.
 
+Lemma alloc_chain_other obj pn pz r obj' n :
+  alloc_chain obj ((pn, pz) :: r) = Ok obj' -> n <> pn -> gfield obj' n = gfield obj n.
+Proof.
+  cbn [alloc_chain]. destruct (gfield obj pn) as [pv|]; cbn [bind]; [|discriminate].
+  destruct pv as [| |[x|]| | | |]; try discriminate.
+  - destruct r as [|q r']; [now intros [= <-]|].
+    destruct (alloc_chain x (q :: r')) as [x'|]; cbn [bind]; [|discriminate].
+    intros H N. eapply gset_other; eauto.
+  - destruct (alloc_chain pz r) as [z|]; cbn [bind]; [|discriminate].
+    intros H N. eapply gset_other; eauto.
+Qed.
+
 Lemma alloc_parent_other i obj obj' n :
   alloc_parent i obj = Ok obj' -> ~ In n (top_keys i) -> gfield obj' n = gfield obj n.
 Proof.
   unfold alloc_parent, top_keys. destruct (fi_parent i) as [[pn pz]|]; [|now intros [= <-]].
-  destruct (gfield obj pn) as [pv|]; cbn [bind]; [|discriminate].
-  destruct pv as [| |[x|]| | | |]; try discriminate; [now intros [= <-]|].
-  intros H N. eapply gset_other; eauto. intros ->. apply N. cbn. tauto.
+  intros H N. eapply alloc_chain_other; eauto. intros ->. apply N. cbn. tauto.
 Qed.
 
 Lemma gset_via_key_other i obj k v obj' n :
@@ -742,7 +752,7 @@ Proof.
   { intros m' E at0 Ta ds0. destruct (m_empty m'); [eauto|]. destruct (DEC m' E at0 Ta ds0) as [v [ds' ->]]. eauto. }
   clear T DEC. unfold wkey in W.
   cbn [from_field]. fold (from_fields hook). rewrite !(alloc_parent_none i) by exact P. rewrite V, P.
-  cbn [gset_via gget_via].
+  cbn [gset_via gget_via bind].
   destruct (match attrs with Some l => lookup (fi_snake i) l | None => None end) as [a|] eqn:EA.
   2:{ destruct (fi_kind i) eqn:EK; try (do 2 eexists; split; reflexivity).
       destruct (fi_oneof i); [destruct O; discriminate|].
@@ -912,7 +922,7 @@ Module Example.
              (oneof : option string) : finfo :=
     {| fi_name := name; fi_snake := snake; fi_path := snake; fi_kind := k; fi_tk := tk; fi_cast := c;
        fi_nullable := nullable; fi_zero := false; fi_placeholder := false; fi_oneof := oneof; fi_via := [];
-       fi_parent := None; fi_required := false; fi_computed := false; fi_sensitive := false;
+       fi_parent := None; fi_inner := []; fi_required := false; fi_computed := false; fi_sensitive := false;
        fi_validators := []; fi_planmods := []; fi_comment := ""; fi_suffix := "" |}.
 
   Definition inner : message :=
